@@ -142,14 +142,19 @@ def atofWithin (single strict : Bool) (L : Lit) (ref own : Val) : Bool :=
     `edge` where the reference lies in the lowest / highest binades (|ref| <= 8 smallest subnormals, |ref| >= half the
     overflow threshold: there 0 / the smallest subnormal, the largest finite / infinity are within the allowance of
     each other) -/
-def classOf (rf : Fmt) (L : Lit) (rb : Nat) (of : Fmt) (ob : Nat) : String :=
+def classOf (rf : Fmt) (L : Lit) (rb : Nat) (of : Fmt) (ob : Nat) : Nat :=
   let mag := rb % rf.signBit
   let edge : Bool := L.sig > 0 && (mag ≤ 8 || mag ≥ (rf.expMax - 1) * 2 ^ rf.mbits)
-  if edge then "edge" else
+  if edge then 0 else
   match decode of ob with
-  | .nan => "nan"
-  | .inf s => if s then "-i" else "+i"
-  | .fin s m _ => (if s then "-" else "+") ++ (if m = 0 then "z" else "f")
+  | .nan => 1
+  | .inf s => if s then 3 else 2
+  | .fin s m _ => (if m = 0 then 4 else 6) + (if s then 1 else 0)
+
+/-- class codes: 0 edge, 1 nan, 2 +i, 3 -i, 4 +z, 5 -z, 6 +f, 7 -f -/
+def className (c : Nat) : String :=
+  match c with
+  | 0 => "edge" | 1 => "nan" | 2 => "+i" | 3 => "-i" | 4 => "+z" | 5 => "-z" | 6 => "+f" | _ => "-f"
 
 /-! ## renderers -/
 
